@@ -42,9 +42,9 @@ CHECKS['C06'] = (
     'structs kernel-checked against the Spec; correspondence of _parse_entries/_decode_CFI_table with the model on spec-encoded and damaged sections',
     'Proof: the decoded unwind table equals the table DWARF §6.4 defines (code/data alignment, restore to CIE rules, remember/restore, final row) for every '
     'instruction sequence on which the standard machine is defined; instruction streams are split into exactly the encoded opcodes/operands.',
-    'entries_exact (section-level entry list: kinds, headers, augmentation, pcrel pointers, FDE->CIE links) is proved only in parts (zero terminator, cache hit, '
-    'CIE pointer arithmetic) and otherwise covered by correspondence; reg_order/dict order correspondence-only. CIE v4 address_size != container size and '
-    'DW_CFA_set_loc under a non-absptr .eh_frame encoding are outside WF (the latter recorded as a known finding).',
+    'entries_exact (section-level entry list: kinds, headers, augmentation data, pcrel pointers, LSDA, FDE->CIE links, zero terminators, cache hits) is proved for .debug_frame and '
+    '.eh_frame; reg_order (insertion order of the register columns) is proved (reg_order_cie/_fde, entries_reg_order); the earlier entries_exact_partial is kept beside the full one. '
+    'CIE v4 address_size != container size and DW_CFA_set_loc under a non-absptr .eh_frame encoding are outside WF (the latter recorded as a known finding). Malformed sections are correspondence-only.',
     'DESIGN.md §6 C06')
 CHECKS['C13'] = (
     'Lean 4 theorems: aranges entries exact and sorted; bisect-based lookup = "the range containing the address" under the no-shadow hypothesis (with a '
@@ -52,7 +52,7 @@ CHECKS['C13'] = (
     'answer in every cache state satisfying an invariant every lookup preserves; correspondence incl. exhaustive offsets of multi-unit sections',
     'Proof: lookup tables resolve to the unit whose encoded range/extent contains the query, for all queries and all cache states; bisect_right is modelled '
     'as CPython\'s loop and proved equal to the count of keys <= x on sorted lists.',
-    'Unit-header instantiation proved for DWARF versions 2-4 (v5 headers by correspondence); first-occurrence key order for duplicate names not proved; '
+    'Unit-header instantiation proved for DWARF versions 2-4 (…_encoded_partial; v5 headers by correspondence here, proved in C04\'s unit_chain); first-occurrence key order for duplicate names not proved; '
     'DIE decoding behind get_DIE_from_lut_entry is C04\'s subject (observed through offset and unit only). Zero-length / shadowed tuples are the claim\'s boundary.',
     'DESIGN.md §6 C13')
 CHECKS['C14'] = (
@@ -78,8 +78,9 @@ CHECKS['C08'] = (
     'correspondence on Lean-assembled relocatable objects for every machine',
     'Proof: relocation tables decode exactly; RELR expands to the addresses its anchors and bitmaps denote; each supported (machine, type) computes the psABI formula '
     'truncated to the field width and leaves every other byte unchanged; unsupported types, wrong flavour and out-of-range symbols are the relocation error.',
-    'apply_section_eq_std is partial (hypothesis: parsing symbol i yields st_value = syms[i]; Elf_Sym layout is tied separately). Correspondence-only: '
-    'get_relocation_tables, find_relocations_for_section, get_dwarf_info glue. R_ARM_CALL/BPF modelled without psABI claim. R_*_NONE within 8 bytes of the section end '
+    'apply_section_eq_std is proved under a symbol-table layout predicate (apply_section_eq_std_layout discharges the st_value hypothesis of the earlier _partial form, which is kept); '
+    'Dynamic.get_relocation_tables (dyn_reloc_tables_exact), find_relocations_for_section and the relocated read of a debug section (read_dwarf_section_relocated) are theorems. '
+    'Correspondence-only: get_dwarf_info glue, malformed tables. R_ARM_CALL/BPF modelled without psABI claim. R_*_NONE within 8 bytes of the section end '
     'and MIPS64 plain relocations with non-zero type2/type3 are outside WF.',
     'DESIGN.md §6 C08')
 CHECKS['C03'] = (
@@ -87,8 +88,9 @@ CHECKS['C03'] = (
     '= the 32-bit gABI functions for all names; SysV and GNU hash lookup sound and complete on every well-formed table (bloom false positives, bucket and hash|1 '
     'collisions), symbol counts exact; correspondence on Lean-built tables with forced collisions',
     'Proof: symbol tables enumerate exactly; hash lookups return a symbol with the requested name iff one is in the hashed part; counts equal the table length.',
-    'buildSysV/buildGnu are not proved to satisfy WF (the driver evaluates WF on every generated table); syminfo iteration entry-level only; linked-section type checks and '
-    'malformed inputs correspondence-only; names are compared as UTF-8 bytes (invalid UTF-8 outside the theorems).',
+    'The builders are proved to satisfy WF for every symbol list (buildSysV_wf, buildGnu_wf, buildGnu_perturbed_wf), so the lookup theorems are closed end to end over built tables '
+    'and their file images (…_built, …_built_file, …_image_generated); syminfo iteration and the SHNDX companion table are whole-table theorems. Linked-section type checks and '
+    'malformed inputs are correspondence-only; names are compared as UTF-8 bytes (invalid UTF-8 outside the theorems).',
     'DESIGN.md §6 C03')
 
 CHECKS['C01'] = (
@@ -108,15 +110,16 @@ CHECKS['C19'] = (
     'run under RLIMIT_AS and a wall-clock limit with directed count-amplification faults',
     'Proof for the constructor closure and the section/segment enumeration bounds; the runtime half (CPython time and memory) is partial by nature and covered by the '
     'fault-injection battery (supporting evidence and failing-input search, not the proof).',
-    'Partial by nature: the theorems bound model iterations, not CPython time/allocation. Dynamic-tag, note, hash and symbol-count loops are covered by the battery and by '
-    'the fuel/termination theorems of C09/C14/C03 where proved; the version-record walk is not in the property\'s battery (DESIGN §10.1).',
+    'Partial by nature: the theorems bound model iterations, not CPython time/allocation. Loop bounds by file size are also proved for the note walk, the dynamic-tag scan, the hash-table '
+    'symbol counts and header enumeration (Props/C19Loops); the version-record walk is not in the property\'s battery (DESIGN §10.1).',
     'DESIGN.md §6 C19')
 CHECKS['C05'] = (
     'Lean 4 theorems: decoded rows = the DWARF §6.2 state machine run over the instruction list (induction generalising registers, file list, fuel) for versions 2-5, all '
     'header parameters, every standard/extended/special/unknown opcode, padded LEB128; decoding consumes exactly the extent; header round trip for versions <= 4 (v5 closed '
     'instances); cache coherence; regenerated header struct and DW_LNS/DW_LNE constants tied to the Spec; correspondence on spec-encoded and mutated programs',
     'Proof: rows equal the standard machine\'s for every well-formed program; the program attached to a unit is the one DW_AT_stmt_list designates.',
-    'v5 header round trip (FormattedEntry, string resolution, legacy tables) is correspondence + two closed kernel-checked instances; header_length is not honoured by the code '
+    'v5 header pieces are proved separately (entry-format table, FormattedEntry rows for every form, string resolution through .debug_str/.debug_line_str) plus two closed kernel-checked '
+    'whole-header instances; the single composed v5 header theorem is not stated; VLIW op_index arithmetic is proved (std_*_vliw). header_length is not honoured by the code '
     '(program_start = tell()), so the encoder sets it exactly; DW_FORM_strx* in line tables raises NotImplementedError (split DWARF, outside WF).',
     'DESIGN.md §6 C05')
 CHECKS['C07'] = (
@@ -124,8 +127,9 @@ CHECKS['C07'] = (
     'index lookup, unit-block and range-list enumeration exact, attribute classification decided for all (name, version, form); regenerated entry/header structs and '
     'LLE/RLE tables tied to the Spec; correspondence incl. gaps, view pairs, every list-capable form',
     'Proof: lists fetched by offset, attribute or index are exactly the encoded entries, translated as the standard prescribes; enumeration of range lists and unit blocks is exact.',
-    'iter_location_lists by DIE (gap skipping, view pairs) is correspondence-only (every list it fetches is covered by the round-trip theorems); LocationListsPair/RangeListsPair wrappers not modelled; '
-    'the model receives the (name, form, raw value) triples the harness assembled into .debug_info (DIE decoding is C04).',
+    'Location-list enumeration is proved for v4 and v5 (enumeration_exact_locations_v4/_v5: the visited offsets are exactly the referred ones, sorted, gaps skipped); the '
+    'LocationListsPair/RangeListsPair wrappers are modelled with dispatch theorems (pair_*). The model receives the (name, form, raw value) triples the harness assembled into '
+    '.debug_info (DIE decoding is C04; die_refs_exact/die_decoding_plain state the interface). Malformed lists and view-pair corner cases are correspondence-only.',
     'DESIGN.md §6 C07')
 CHECKS['C15'] = (
     'Lean 4 theorems under a decidable layout predicate on the whole file (arbitrary, padded, interleaved, zero displacements): iter_versions with every aux chain = the '
@@ -138,7 +142,7 @@ CHECKS['C17'] = (
     'Lean 4 kernel evaluation (decide +kernel over Nat-keyed tables, one theorem per regenerated table + a catch-all over the table index): every (name, value) the library '
     'exports whose name a vendored registry (glibc elf.h, LLVM ELF.h/ELFRelocs/DynamicTags/Dwarf.def, aaelf64 for two names) defines has a registry value; the decode direction '
     'reports standard names (explicit 8-name legacy-alias exception list); reverse maps consistent; direct comparison of the live Python tables with the registry TSVs',
-    'Proof by exhaustive kernel check of the tables regenerated from /repo on every run against the vendored registries.',
+    'Proof by exhaustive kernel check of the tables regenerated from /repo on every run against the vendored registries; the range-marker rule (LO/HI markers bracket, and never shadow, a defined name) is a kernel-checked theorem per table family.',
     'Trusted: the one-time registry extraction (registry/extract_registry.py, values printed by this image\'s gcc/clang), the name-key function, registry decisions (count pseudo-constants excluded; '
     'either value accepted where glibc and LLVM disagree). Names no registry knows are not judged (counted as unmatched).',
     'DESIGN.md §6 C17')
@@ -148,18 +152,21 @@ CHECKS['C09'] = (
     'link or by DT_STRTAB through the PT_LOAD map; get_table_offset for the followed tags; num_symbols exact under WFGnu or WFSysV (max-bucket chain walk, GNU precedence); '
     'kernel-checked facts about the four regenerated d_tag tables; 11 struct ties; correspondence on Lean-assembled images with and without section headers',
     'Proof: the dynamic table, its strings and the symbol count recovered through the hash tables are exactly the encoded ones, from the section view and from the segment view.',
-    'segment_view_eq_section_view is partial (container accessors and assembler placement are hypotheses: TableView, SegsView, strtab placement); symbols_exact takes the count and '
-    'st_name decoding as hypotheses; get_relocation_tables, get_symbol_by_name, the no-hash count fallback, the .dynstr by-name fallback and all error behaviour are correspondence-only.',
+    'segment_view_eq_section_view is proved at full strength over assembled images (the stripped and the full layout of a DynDesc are Spec.ElfDescs; the container accessors are C01\'s '
+    'theorems applied to them), and symbols_exact without the count/st_name hypotheses; the earlier hypothesis-laden forms are kept as …_partial. get_relocation_tables is C08\'s '
+    'dyn_reloc_tables_exact. Correspondence-only: get_symbol_by_name, the no-hash count fallback, the .dynstr by-name fallback and all error behaviour.',
     'DESIGN.md §6 C09')
 CHECKS['C04'] = (
     'Lean 4 theorems: form round trip for all 45 forms x 32 configurations x all in-range operands; regenerated form table / abbrev / CU / TU structs = Spec (rfl), parser registered '
     'under each form name = operand class of the form code; iter_DIEs = preorder flatten with parents (mutual induction over tree and forest, sibling shortcut included) given the '
     'per-entry cache function; tiling; unit-relative references; correspondence of the full DIE model (abbrev parse, parse_DIE, indirect cascade, translation, top-DIE deferred hook, '
     'children/sibling walk, references, type units) on Lean-encoded forests',
-    'Proof of the form layer and of the iteration/tiling layer; the entry layer between them (die_roundtrip, abbrev_roundtrip, v5/TU header round trips, value translation) is '
-    'correspondence-only so far (second-wave proofs in progress).',
-    'iter_dies_flatten takes "the cache function returns each flatten entry at its offset" (Covered) as a hypothesis — what die_roundtrip would discharge. '
-    'DW_FORM_ref_sig8 to a DWARF 5 type unit in .debug_info raises KeyError (known finding sig8-v5-type-unit). Legacy DW_FORM_ref (code 2) is special-cased in the model, not tied.',
+    'Proof of every layer: forms, abbreviation tables (abbrev_roundtrip), entries (die_roundtrip incl. DW_FORM_indirect chains and implicit_const, top_die_roundtrip), value translation, '
+    'iteration (iter_dies_exact with no hypothesis about the cache or decoder), children/parents, unit and type-unit headers v2-5 with unit_chain and tiling to the declared length, '
+    'unit- and section-relative references.',
+    'ref_sig8_partial covers .debug_types only: DW_FORM_ref_sig8 to a DWARF 5 type unit in .debug_info raises KeyError (known finding sig8-v5-type-unit, judged by the harness). '
+    'Hypotheses: the UnitCtx of a unit (structs of its header, abbreviation table at debug_abbrev_offset) with UnitOK/SecsOK — the glue from header to context is correspondence-only; '
+    'the cache refinement of _get_cached_DIE is C10\'s subject. Legacy DW_FORM_ref (code 2) is special-cased in the model, not tied.',
     'DESIGN.md §6 C04')
 
 CHECKS['C02'] = (
@@ -176,9 +183,11 @@ CHECKS['C10'] = (
     'symbol name maps, stream positions) with an invariant preserved by every operation incl. adversarial seeks and partial iterator consumption; for the lookup class of operations the '
     'answer in ANY reachable state equals the stateless answer (history independence, stream-position independence, repeatability); exhaustive history exploration to a depth bound and random '
     'soaks comparing a live object with freshly opened ones and with the Lean step function',
-    'Proof for the invariant (all operations) and for answer refinement on the lookup operations; model checking-style exhaustive exploration + correspondence for the generator operations.',
-    'answer refinement is proved for cuAt/cuCont/top/die/refaddr/lp/secIdx/symByName/seek; children/parent/iterator answers, siblings/ref/pubname ops, random_access_eq_sequential, the CFI entry cache, '
-    'abbrev cache and line-program header contents are exploration/correspondence only. Known finding lineprogram-define-file-header (get_entries mutates the header). Invalid get_CU_at offsets poison the cache by design (out of scope).',
+    'Proof for the invariant (all operations) and for answer refinement on lookups, navigation (children/parent/siblings) and generators (take/all, and the k-th item of a suspended generator '
+    'after any interleaved history: suspended_generator_kth) under a tree hypothesis TreeWF; random_access_eq_sequential; exhaustive history exploration + correspondence beside them.',
+    'Navigation ops are proved for entry offsets only (on a garbage offset the code hangs _parent links on a garbage object: genuinely history-dependent, excluded by OpValidT). '
+    'Refinement is not proved for ref/pubname (invariant preservation is); siblings is not a generator kind; the CFI entry cache, abbrev cache and line-program header contents are '
+    'exploration/correspondence only. Known finding lineprogram-define-file-header (get_entries mutates the header). Invalid get_CU_at offsets poison the cache by design (out of scope).',
     'DESIGN.md §6 C10')
 
 CHECKS['C11'] = (
@@ -187,7 +196,8 @@ CHECKS['C11'] = (
     'has_dwarf_info iff a debug-info section in either naming exists (or, non-strictly, .eh_frame); supplementary link parsing; regenerated name tuple / structs / constants tied to the Spec; '
     'correspondence: shipped and synthesized payloads re-wrapped under every transform x class x byte order x zlib level, full DIE/line/CFI dumps compared across wrappings',
     'Proof of the container-invariance of the view with zlib and CRC-32 as parameters (one assumption: decompress(deflate x, k) = x resp. its k-byte prefix); partial by nature for the real zlib/CRC.',
-    'Not proved: bytes -> section table composition (C01\'s theorems can now supply it), relocations on compressed sections, the single theorem combining a supplementary file with compression; '
+    'Whole-file forms (view_of_file, view_of_file_z for SHF_COMPRESSED via C01\'s wfZ theorems, view_plain_eq_zdebug_file, view_plain_eq_gabi_file, view_with_sup_file) compose the section-table '
+    'theorems with C01 over any byte string carrying the description. Not proved: relocations on compressed sections; '
     'zlib chunk independence / CRC chunking and the invariance of DIE/line/CFI dumps through the DWARF layers are checked empirically.',
     'DESIGN.md §6 C11')
 
